@@ -19,12 +19,13 @@ import (
 	"pgregory.net/rapid"
 
 	"verifharness/gen"
+	"verifharness/spec"
 	"verifharness/yg"
 )
 
 func init() {
 	Describe("C13", &PropInfo{
-		Rule: "inputs: (prefixes) every prefix of every corpus file (corpus/*.y: the repository's examples, the grammar literals of its tests, one file using every construct); (edits) rapid-drawn edit scripts over corpus files: delete/duplicate/replace spans, insert delimiter tokens or random bytes; (bytes) rapid-drawn byte strings up to 4 KB biased towards the input language's delimiters; each input is run through generate go, generate typescript and debug; non-trivial = the input is not a well-formed grammar (yaccgo reports failure); distinct by input bytes",
+		Rule: "inputs: (grammars) well-formed grammar files rendered from rapid-drawn specifications of every family, canonical or random layout; (prefixes) every prefix of every corpus file (corpus/*.y: the repository's examples, the grammar literals of its tests, one file using every construct); (edits) rapid-drawn edit scripts over corpus files: delete/duplicate/replace spans, insert delimiter tokens or random bytes; (bytes) rapid-drawn byte strings up to 4 KB biased towards the input language's delimiters; each input is run through generate go, generate typescript and debug; non-trivial = the input is not a well-formed grammar (yaccgo reports failure); distinct by input bytes",
 		Assumptions: []string{
 			"oracle = the command finishes (any exit status) before a deadline of 10 s (worker, in-process) where ~1 ms is normal; a missed deadline is confirmed twice with the real CLI under a 30 s deadline before it counts as a violation",
 			"bulk runs use a worker process linking yaccgo (same entry points as the CLI); every 50th input also goes through the real CLI binary",
@@ -35,6 +36,27 @@ func init() {
 	Register(&Unit{Prop: "C13", Name: "prefixes",
 		Shards: func(tier string) int { return 8 },
 		Run:    runC13Prefixes, Replay: replayC13,
+		Timeout: func(string) time.Duration { return 60 * time.Minute },
+	})
+	Register(&Unit{Prop: "C13", Name: "grammars",
+		Shards: func(tier string) int { return map[string]int{"quick": 4, "thorough": 16}[tier] },
+		Run: func(c *Ctx) {
+			c.P.Rule = "well-formed grammar files rendered from rapid-drawn specifications of every family (conflicted, multi-way conflicts, precedence, nullable cycles, duplicated rules, random layout)"
+			r := newC13Runner(c)
+			defer r.close()
+			c.Rapid("grammars", c.Pick(1500, 30000), func(t *rapid.T) {
+				gc := DrawGrammar(t, []string{"uniform", "uniform-small", "productive", "nullable", "prec", "prec-sep", "separators", "lalr", "dup-rules", "samehandle", "decl"})
+				text := gc.Text
+				if rapid.Bool().Draw(t, "layout") {
+					text = gc.Spec.Render(spec.RenderOpts{Layout: spec.DrawLayout(t)})
+				}
+				if msg := r.check([]byte(text), "rendered "+gc.Family+" grammar"); msg != "" {
+					c.Fail(mkC13([]byte(text), "rendered "+gc.Family+" grammar"), msg)
+					t.Fatalf("%s", msg)
+				}
+			})
+		},
+		Replay:  replayC13,
 		Timeout: func(string) time.Duration { return 60 * time.Minute },
 	})
 	Register(&Unit{Prop: "C13", Name: "edits",
